@@ -445,6 +445,10 @@ func (g *gen) rewritePkgRefs(info *types.Info, node ast.Node) ast.Node {
 			if obj == nil {
 				return false
 			}
+			if v, ok := obj.(*types.Var); ok && v.Embedded() && info.Defs[node] == obj && info.Uses[node] != nil {
+				// An embedded field: what has to be qualified is its type.
+				obj = info.Uses[node]
+			}
 			if pkg := obj.Pkg(); pkg != nil && obj.Parent() == pkg.Scope() && pkg.Path() != g.pkg.PkgPath {
 				// An identifier from either a dot import or read from a different package.
 				newPkgID := g.qualifyImport(pkg.Name(), pkg.Path())
